@@ -202,6 +202,10 @@ theorem subroute_wrap_invariant (rs errs : List Route) (hasErrs : Bool) (req : R
     exact subroute_same_rules rs [] emptyK r t
   rw [this]
 
+example : serve [.mk 0 [] [.sub [.mk 1 [[.atom .path [1]]] [.rewrite 1 3, .fail 2 404] true] false []] false]
+      true [.mk 0 [[.atom .path [1]]] [.pass 3] false] wReq
+    = ⟨[⟨1, 1, none⟩, ⟨2, 3, none⟩, ⟨3, 1, some 404⟩], some 404⟩ := by decide
+
 /-- (3): a subroute WITH error routes: if its chain fails, the error routes are evaluated by the
     same function, on the request as it is at that moment plus the error — the URI is NOT
     restored here (see `Witness.subroute_error_routes_see_rewritten_uri`). -/
@@ -257,6 +261,8 @@ theorem error_without_error_routes (routes : List Route) (req r' : Req) (t : Tra
     serve routes false [] req = ⟨t, some (writeStatus (some st))⟩ := by
   simp [serve, h]
 
+example : serve [.mk 0 [[.legacy true, .err 2 0]] [.pass 1] false] false [] wReq = ⟨[], some 500⟩ := by decide
+
 /-- modelled quirk: the group set lives for the whole request, so a group satisfied in the primary
     chain stays satisfied in the error chain — an error route of that group is skipped. -/
 theorem groups_persist_into_error_chain (routes : List Route) (req r' : Req) (t : Trace) (st g : Nat)
@@ -301,6 +307,9 @@ theorem passed_through_gets_empty_default (routes errs : List Route) (hasErrs : 
     serve routes hasErrs errs req = ⟨t, none⟩ := by
   rw [compile_correct_partial routes errs hasErrs req hok]
   simp [eval, h]
+
+example : specRoutes [.mk 0 [] [.pass 1, .rewrite 2 3] false, .mk 0 [[.atom .path [1]]] [.respond 3 200] true]
+    wReq [] = .cont { wReq with path := 3 } [⟨1, 1, none⟩, ⟨2, 1, none⟩] := by decide
 
 example : serve [.mk 0 [[.atom .host [1]]] [.respond 1 200] true, .mk 0 [[.atom .method [1]]] [.pass 2] false] false [] wReq
     = ⟨[], none⟩ := by decide
